@@ -266,8 +266,26 @@ func genTxnScriptF(g *Gen, native, hack, pad bool, steps int, flavor string) []s
 	cut, sw := "0", ""
 	if flavor == "c04" || (flavor != "c10" && g.R.Intn(4) == 0) {
 		cut, sw = "1000000000000000000", " sw"
+		if g.R.Intn(4) == 0 {
+			cut, sw = "0", " swoff" // retention configured, sweeper off: no cut-off at all
+		}
 	}
-	t.lines = append(t.lines, "clock.reset", fmt.Sprintf("env.new a %s %s %s 0 -%s", b2s(native), b2s(hack), b2s(pad), sw))
+	// receive-only instances (never for the flavors whose oracle is about uploads)
+	ro := "0"
+	if (flavor == "" || flavor == "c11" || flavor == "c18") && g.R.Intn(6) == 0 {
+		ro = "1"
+	}
+	// configured creation flags for DBIs a snapshot may create (with the dupsort hack: the
+	// duplicate-keys flag, as in the documented set-up)
+	ovr := "-"
+	if g.R.Intn(4) == 0 {
+		fl := 0 // (an integer-key override over byte-string keys is LMDB-undefined territory)
+		if hack {
+			fl = 4
+		}
+		ovr = fmt.Sprintf("%s=%d", hx([]byte([]string{"t", "u", "n0", "n1"}[g.R.Intn(4)])), fl)
+	}
+	t.lines = append(t.lines, "clock.reset", fmt.Sprintf("env.new a %s %s %s %s %s%s", b2s(native), b2s(hack), b2s(pad), ro, ovr, sw))
 	for s := 0; s < steps; s++ {
 		switch t.r.Intn(7) {
 		case 0, 1:
